@@ -32,11 +32,17 @@ func formatCommentCharacter(comment string, char rune) string {
 	// Sharp-style comment
 	switch bs[0] {
 	case '#':
+		n := 0
 		for i := range bs {
 			if bs[i] != '#' {
 				break
 			}
 			bs[i] = char
+			n++
+		}
+		// A single "#" becomes "//": a lone "/" does not start a comment
+		if n == 1 && char == '/' {
+			bs = append([]rune{char}, bs...)
 		}
 	// Slash-style comment
 	case '/':
